@@ -230,19 +230,36 @@ class RemoteFamily(common.Family):
           lazy_fns.trace(L.mklist)(cfg['shared_iter'], lazy_result_=True))
       shared_it = iter(ro)
 
+    import time as _time
+    slowest = {'secs': 0.0, 'what': ''}
+
+    def timed(what, fn):
+      """Runs one client-side step and remembers the longest one."""
+      t0 = _time.monotonic()
+      try:
+        return fn()
+      finally:
+        d = _time.monotonic() - t0
+        if d > slowest['secs']:
+          slowest.update(secs=d, what=what)
+
+    def outcome(fn, what='step'):  # pylint: disable=redefined-outer-name
+      return globals()['outcome'](lambda: timed(what, fn))
+
     def run_op(op):
       kind = op['op']
       if kind == 'eval':
         e = lazy(op['expr'])
         if op['cache'] and hasattr(e, 'set_'):
           e = e.set_(_cache_result=True)
-        return outcome(lambda: client.get_result(e))
+        return outcome(lambda: client.get_result(e), 'eval')
       if kind == 'async_eval':
         e = lazy(op['expr'])
         loop = asyncio.new_event_loop()
         try:
           return outcome(
-              lambda: loop.run_until_complete(client.async_get_result(e)))
+              lambda: loop.run_until_complete(client.async_get_result(e)),
+              'async_eval')
         finally:
           loop.close()
       if kind == 'robj':
@@ -254,13 +271,13 @@ class RemoteFamily(common.Family):
         except Exception as e:  # pylint: disable=broad-exception-caught
           return [['exc', type(e).__name__, str(e)]] * 7
         stays = isinstance(ro_, courier_utils.RemoteObject)
-        res = [outcome(lambda: ro_.v.result_()),
-               outcome(lambda: ro_.plus(op['k']).get().result_()),
-               outcome(lambda: ro_.items[op['i']].result_()),
-               outcome(lambda: ro_(op['x']).result_()),
-               outcome(lambda: ro_.bump().result_()),
-               outcome(lambda: ro_.bump().result_()),
-               outcome(lambda: ro_.fail().result_())]
+        res = [outcome(lambda: ro_.v.result_(), 'robj'),
+               outcome(lambda: ro_.plus(op['k']).get().result_(), 'robj'),
+               outcome(lambda: ro_.items[op['i']].result_(), 'robj'),
+               outcome(lambda: ro_(op['x']).result_(), 'robj'),
+               outcome(lambda: ro_.bump().result_(), 'robj'),
+               outcome(lambda: ro_.bump().result_(), 'robj'),
+               outcome(lambda: ro_.fail().result_(), 'robj')]
         if not stays:
           res.append(['not-remote', type(ro_).__name__])
         return res
@@ -274,9 +291,9 @@ class RemoteFamily(common.Family):
         got = []
         try:
           while True:
-            got.append(next(it))
+            got.append(timed('iter', lambda: next(it)))
         except StopIteration:
-          again = outcome(lambda: next(it))
+          again = outcome(lambda: next(it), 'iter')
           return ['done', got, again[:2]]
         except Exception as e:  # pylint: disable=broad-exception-caught
           return ['exc', got, type(e).__name__, str(e)]
@@ -289,7 +306,7 @@ class RemoteFamily(common.Family):
         got = []
         try:
           while True:
-            got.append(rq.get())
+            got.append(timed('queue', rq.get))
         except StopIteration:
           res = ['done', got, ['exc', 'StopIteration']]
         except Exception as e:  # pylint: disable=broad-exception-caught
@@ -305,7 +322,7 @@ class RemoteFamily(common.Family):
       if shared_it is not None:
         try:
           while True:
-            shared['got'][c].append(next(shared_it))
+            shared['got'][c].append(timed('shared', lambda: next(shared_it)))
         except StopIteration:
           shared['ends'][c] = ['stop']
         except Exception as e:  # pylint: disable=broad-exception-caught
@@ -343,7 +360,8 @@ class RemoteFamily(common.Family):
               and False]
     del leaked
     cl.stop_all()
-    return {'results': results, 'shared': shared, 'n_calls': courier.NET.n_calls}
+    return {'results': results, 'shared': shared, 'n_calls': courier.NET.n_calls,
+            'slowest': slowest}
 
   # ------------------------------------------------------------------------
   def check(self, cfg, out):
@@ -421,6 +439,19 @@ class RemoteFamily(common.Family):
       for g in obs['shared']['got']:
         if g != sorted(g):
           res.append(v('iteration', f'shared:order:{fault}', f'{g}'))
+    # "rather than hanging": the client was configured with a call deadline T
+    # and a heartbeat threshold H; no single step made through it - chains on
+    # the remote objects and iterators it handed out included - stays pending
+    # longer than noticing the death (H) plus one call (T).  100 s to spare: the
+    # library busy-polls in places (async_wait_until_alive never yields) and
+    # the simulated clock then advances in escalating jumps of up to 64 s.
+    slow = obs.get('slowest') or {}
+    if cfg['call_timeout'] > 0 and slow.get('secs', 0.0) > (
+        cfg['hb_threshold'] + cfg['call_timeout'] + 100.0):
+      res.append(v('shutdown', f"hang:{slow['what']}:{fault}",
+                   f"a {slow['what']} step stayed pending for {slow['secs']:.1f} "
+                   f"simulated s; client call_timeout={cfg['call_timeout']} "
+                   f"heartbeat_threshold={cfg['hb_threshold']}"))
     left = [t for t in common.leftover_repo_threads(out)
             if t['name'].startswith('client')]
     if left:
